@@ -30,7 +30,7 @@ R = "fcppt::random::"
 def ret_term(u, fn):
     rets = [r for r in F.walk(fn.get("body"), into_lambdas=False) if r.get("k") == "return"]
     if len(rets) == 1 and rets[0].get("e") is not None:
-        return re.sub(r"this\.", "", T.show(T.norm(u, rets[0]["e"])))
+        return re.sub(r"this\.", "", T.show(T.snorm(u, fn, rets[0]["e"])))
     stm = (fn.get("body") or {}).get("ch", [])
     if len(stm) == 1 and stm[0].get("k") != "return":
         return re.sub(r"this\.", "", T.show(T.norm(u, stm[0])))
